@@ -20,6 +20,7 @@ import asyncio
 import copy
 import logging
 import os
+import pickle
 import shutil
 import tempfile
 import uuid
@@ -260,6 +261,7 @@ class World:
         self.replies = []                # per task: a future-like (asyncio task / kiwi future) or ('implied', pid)
         self.log = []                    # [task, loader, scheme, class]
         self.ntask = 0
+        self.decoded = {}                # pickled bundle -> what it describes (cache of store())
         self.ghost = uuid.uuid4()        # the pid no process ever had
         self.comm = None
         if route != 'direct':
@@ -446,16 +448,21 @@ class World:
         _SILENT[0] += 1
         try:
             for cp in self.persister.get_checkpoints():
-                bundle = copy.deepcopy(self.persister.load_checkpoint(cp.pid, cp.tag))
-                name = bundle[persistence.META][persistence.META__CLASS_NAME]
-                scheme = 'd' if name in DEFAULT_NAMES else 'c' if name in CUSTOM_NAMES else 'other:%s' % name
-                # look into the checkpoint the public way: recreate the process it describes (in a loop of its own)
-                twin = bundle.unbundle(plumpy.LoadSaveContext(loader=self.custom, loop=vloop.VLoop()))
+                stored = self.persister.load_checkpoint(cp.pid, cp.tag)
+                raw = pickle.dumps(stored)
+                val = self.decoded.get(raw)
+                if val is None:
+                    bundle = pickle.loads(raw)          # a private copy: looking must not disturb the stored bundle
+                    name = bundle[persistence.META][persistence.META__CLASS_NAME]
+                    scheme = 'd' if name in DEFAULT_NAMES else 'c' if name in CUSTOM_NAMES else 'other:%s' % name
+                    # look into the checkpoint the public way: recreate the process it describes (in a loop of its own)
+                    twin = bundle.unbundle(plumpy.LoadSaveContext(loader=self.custom, loop=vloop.VLoop()))
+                    val = self.decoded[raw] = (twin.pid, [getattr(twin, 'CLS', type(twin).__name__), scheme, LABEL[twin.state],
+                                                          str(twin.inputs.v), outs_of(twin.outputs)])
                 key = '%s/%s' % (self.mpid(cp.pid), 'None' if cp.tag is None else cp.tag)
-                if twin.pid != cp.pid:
+                if val[0] != cp.pid:
                     key += '!pid-mismatch'
-                out[key] = [getattr(twin, 'CLS', type(twin).__name__), scheme, LABEL[twin.state], str(twin.inputs.v),
-                            outs_of(twin.outputs)]
+                out[key] = val[1]
         finally:
             _SILENT[0] -= 1
         return out
